@@ -620,3 +620,48 @@ package ion
 //@    specTagIllegal(old(bsByte(&r.bits, 0)), old(bsTop(&r.bits))) ==> err != nil
 //@ ensures[C07] old(r.bits.state) == bssBeforeValue && !old(bsTop(&r.bits)) && old(r.bits.pos) != old(bsTopEnd(&r.bits)) && old(bsAvail(&r.bits)) == 0 ==> err != nil
 //@ safe[C06]
+
+// ---------------------------------------------------------------------------
+// symboltable.go: shared symbol tables. A shared table is immutable after construction:
+// every method has `modifies nothing` (C18) and the results below (C09).
+
+//@ func NewSharedSymbolTable
+//@ modifies nothing
+//@ ensures[C09,C10] result != nil && vcIsSST(result)
+//@ ensures[C09] vcAsSST(result).maxID == uint64(len(symbols)) && len(vcAsSST(result).symbols) == len(symbols) && vcAsSST(result).version == version
+//@ ensures[C09] vcFresh(vcAsSST(result).symbols)
+//@ safe[C06]
+
+//@ func (*sst).MaxID
+//@ modifies nothing
+//@ ensures[C09] result == s.maxID
+//@ safe[C06]
+
+//@ func (*sst).FindByID
+//@ modifies nothing
+//@ ensures[C09] id == 0 || id > uint64(len(s.symbols)) ==> !result1
+//@ ensures[C09] 1 <= id && id <= uint64(len(s.symbols)) ==> result1 && result0 == s.symbols[id-1]
+//@ safe[C06,C09]
+
+//@ func (*sst).Adjust
+//@ split returns
+//@ requires len(s.symbols) <= int(s.maxID)
+//@ modifies nothing
+//@ ensures[C09,C10] result != nil && vcIsSST(result) && vcAsSST(result).maxID == maxID
+//@ ensures[C09,C10] vcAsSST(result).version == s.version && vcAsSST(result).name == s.name
+//@ ensures[C09] maxID == s.maxID ==> vcAsSST(result) == s
+//@ ensures[C09,C10] maxID >= uint64(len(s.symbols)) ==> len(vcAsSST(result).symbols) == len(s.symbols)
+//@ ensures[C09,C10] maxID < uint64(len(s.symbols)) ==> uint64(len(vcAsSST(result).symbols)) == maxID
+//@ ensures[C09,C10] forall i int :: 0 <= i && i < len(vcAsSST(result).symbols) ==> vcAsSST(result).symbols[i] == s.symbols[i]
+//@ ensures[C09,C10] len(vcAsSST(result).symbols) <= int(vcAsSST(result).maxID)
+//@ safe[C06]
+
+//@ func (*bogusSST).Adjust
+//@ modifies nothing
+//@ ensures[C09,C10] result != nil
+//@ safe[C06]
+
+//@ func (*lst).MaxID
+//@ modifies nothing
+//@ ensures[C09] result == t.maxImportID+uint64(len(t.symbols))
+//@ safe[C06]
